@@ -52,12 +52,21 @@ impl util::SymbolManager<asm::Symbol>
                     {
                         if let Some(addr_start) = bankdef.addr_start.maybe_into::<usize>()
                         {
-                            let prg_offset = addr - addr_start + output_offset / 8 - 0x10;
-                            result.push_str("P:");
-                            result.push_str(&format!("{:x}", prg_offset));
-                            result.push_str(":");
-                            result.push_str(&name.replace(".", "_"));
-                            result.push_str("\n");
+                            // Labels that lie before the PRG ROM (inside
+                            // the 16-byte iNES header) have no PRG offset
+                            let maybe_prg_offset = addr
+                                .checked_sub(addr_start)
+                                .and_then(|v| v.checked_add(output_offset / 8))
+                                .and_then(|v| v.checked_sub(0x10));
+
+                            if let Some(prg_offset) = maybe_prg_offset
+                            {
+                                result.push_str("P:");
+                                result.push_str(&format!("{:x}", prg_offset));
+                                result.push_str(":");
+                                result.push_str(&name.replace(".", "_"));
+                                result.push_str("\n");
+                            }
                         }
                     }
                 }
